@@ -111,6 +111,8 @@ let () = main_loop (fun w -> match w with
     let (rs, left) = parse_stream hs (bytes_of_hex h) in
     Printf.sprintf "n=%d left=%s%s" (List.length rs) (hex_of_bytes left)
       (String.concat "" (List.map (fun r -> " | " ^ s_resp r) rs))
+  | ["date"; n] -> hex_of_bytes (build_http_date (n_of_dec n))
+  | ["datetables"] -> String.concat "," (List.map hex_of_bytes weekdayname) ^ " " ^ String.concat "," (List.map hex_of_bytes monthname)
   | ["cap"; s] -> string_of_cps (py_cap (cps_of_string s))
   | ["lower"; s] -> string_of_cps (py_lower (cps_of_string s))
   | ["int"; s] -> (match py_int (cps_of_string s) with None -> "none" | Some z -> string_of_int (int_of_z z))
